@@ -643,6 +643,8 @@ class Sim(object):
         x = ev
         if ev in ("hook_success", "hook_failure"):
             x = ev + ":" + str(msg.get("name"))
+        if ev == "reap" and (isinstance(a, bool) or not isinstance(a, int)):
+            a = -999            # an exit_code that is not a number (None, a string ...) is not any exit status
         self.rec("ev", w=wname, x=x, p=pid or 0, a=a if isinstance(a, int) else 0)
 
     # ------------------------------------------------------------------ injections
